@@ -45,19 +45,24 @@ const (
 )
 
 type Op struct {
-	K     OpKind
-	ID    string
-	Flush bool
-	Tick  int
+	K       OpKind
+	ID      string
+	Flush   bool
+	Tick    int
+	CtxDone bool `json:",omitempty"` // OpEv: Process is called with a context that is already cancelled (the recording Sender does not look at it)
 }
 
 func (o Op) String() string {
 	switch o.K {
 	case OpEv:
-		if o.Flush {
-			return "flush(" + o.ID + ")"
+		x := ""
+		if o.CtxDone {
+			x = ",ctx done"
 		}
-		return "ev(" + o.ID + ")"
+		if o.Flush {
+			return "flush(" + o.ID + x + ")"
+		}
+		return "ev(" + o.ID + x + ")"
 	case OpNonGate:
 		return "plain"
 	case OpTick:
@@ -285,7 +290,13 @@ func Run(cfg Config, ops []Op) *Obs {
 				payload = &plain{tok: tok}
 			}
 			in := &eventlogger.Event{Type: "t", CreatedAt: now, Formatted: map[string][]byte{}, Payload: payload}
-			out, err := f.Process(ctx, in)
+			pctx := ctx
+			if op.CtxDone {
+				c, cancel := context.WithCancel(ctx)
+				cancel()
+				pctx = c
+			}
+			out, err := f.Process(pctx, in)
 			oo.Err = err
 			switch {
 			case out == nil:
